@@ -54,6 +54,8 @@ func shrink(tb tb, deadline time.Time, rec recordedBits, err *testError, prop fu
 		err1 := checkOnce(newT(tb, newBufBitStream(buf, false), false, nil), prop)
 		if err1 == nil || err1.isInvalidData() || traceback(err1) != traceback(err) {
 			buf = s.lastRun
+		} else {
+			err = err1 // what the presented test case fails with, in its own words
 		}
 	}
 
